@@ -866,7 +866,7 @@ func vApprox(a, b float64) bool {
 		return a == b
 	}
 	d := math.Abs(a - b)
-	m := math.Max(1, math.Max(math.Abs(a), math.Abs(b)))
+	m := math.Max(vTolFloor, math.Max(math.Abs(a), math.Abs(b)))
 	return d <= 1e-5*m
 }
 
